@@ -18,7 +18,8 @@ class ElementGlobal(Element):
         if tind is None:
             tind = np.arange(mapping.mesh.t.shape[1])
 
-        if self.V is None:
+        if (self.V is None
+                or getattr(self, '_V_mesh', None) is not mapping.mesh):
             # initialize power basis
             self._pbasis_init(self.maxdeg,
                               self.dim,
@@ -26,6 +27,7 @@ class ElementGlobal(Element):
                               self.tensorial_basis)
             # construct Vandermonde matrix and invert it
             self.V = np.linalg.inv(self._eval_dofs(mapping.mesh))
+            self._V_mesh = mapping.mesh
 
         V = self.V[tind]
 
